@@ -114,7 +114,7 @@ func (d *diff) TableAttrDiff(from, to *schema.Table, opts *schema.DiffOptions) (
 		return enforced(c1.Attrs) == enforced(c2.Attrs)
 	}) {
 		drop, ok := c.(*schema.DropCheck)
-		if !ok || !strings.HasPrefix(drop.C.Expr, "json_valid") {
+		if !ok || !d.Maria() || !strings.HasPrefix(drop.C.Expr, "json_valid") {
 			checks = append(checks, c)
 			continue
 		}
